@@ -1,6 +1,7 @@
 package checks
 
 import (
+	"encoding/binary"
 	"bytes"
 	"fmt"
 	"runtime"
@@ -235,6 +236,32 @@ func runCoCase(c coCase, st *coStats) *fail {
 			tag++
 			if f := expect(tClunk(40), refcodec.New(refcodec.Rclunk, 0)); f != nil {
 				return f
+			}
+		case "short-after-long":
+			// a complete Tsymlink with long strings, then - on this and the other
+			// connections' shared buffers - a Tsymlink frame that ends after its first
+			// string: it must be rejected, not completed from what the buffers held
+			long := refcodec.New(refcodec.Tsymlink, 0, "dfid", 0, "name", coName(max(stp.N, 1)%200+1, stp.Salt), "target", string(coBytes(max(stp.M, 8), stp.Salt+1)), "gid", 4242)
+			mock.Push("Symlink", &mockfs.Result{QID: p9.QID{Type: p9.TypeSymlink, Path: 77}})
+			if _, f := call(long); f != nil {
+				return f
+			}
+			tag++
+			short := refcodec.Encode(withTag(refcodec.New(refcodec.Tsymlink, 0, "dfid", 0, "name", "linkname", "target", "", "gid", 0), tag))
+			short = short[:7+4+2+len("linkname")] // header, dfid, name
+			binary.LittleEndian.PutUint32(short, uint32(len(short)))
+			before := mock.NCalls()
+			raw, err := s.RPC(short)
+			if err != nil {
+				return failf("no-reply:short-frame", "%s: %v", what, err)
+			}
+			if _, isErr := refcodec.Errno(raw); !isErr {
+				return failf("carry-over:truncated-frame-completed", "%s: a Tsymlink frame that ends after its name was answered %x instead of being rejected", what, raw[:min(len(raw), 40)])
+			}
+			for _, rc := range mock.Calls(before) {
+				if rc.Op == "Symlink" {
+					return failf("carry-over:truncated-frame-completed", "%s: a Tsymlink frame that ends after its name reached the backend as Symlink(target=%.60q, name=%q, gid=%v): the missing fields came from an earlier message", what, rc.Name2, rc.Name, rc.U)
+				}
 			}
 		case "setxattr":
 			// an attribute value sent with Txattrcreate + Twrite is handed to the
@@ -665,7 +692,7 @@ func runOverlapCase(c overlapCase) *fail {
 	return nil
 }
 
-var coKinds = []string{"walk", "walkga", "write", "read", "readdir", "symlink", "xattr", "renameat", "attach", "setxattr"}
+var coKinds = []string{"walk", "walkga", "write", "read", "readdir", "symlink", "xattr", "renameat", "attach", "setxattr", "short-after-long"}
 
 func genCoCase(rt *rapid.T) coCase {
 	c := coCase{Conns: rapid.IntRange(1, 3).Draw(rt, "conns")}
